@@ -3,6 +3,7 @@ import GoSQLXModel.Gen.ParserGraph
 import GoSQLXModel.Gen.TokenizerGraph
 import GoSQLXModel.Gen.Limits
 import GoSQLXModel.Gen.Known
+import GoSQLXModel.Gen.ParserInstance
 import GoSQLXModel.Model.LexGen
 import GoSQLXModel.Proofs.LexLimit
 /-!
@@ -34,6 +35,11 @@ theorem gen_parser_ranked : checkRanking Gen.parserEdges Gen.parserRank = [] := 
 
 /-- the tokenizer's call graph has no cycle at all (no edge is guarded there) -/
 theorem gen_tokenizer_ranked : checkRanking Gen.tokenizerEdges Gen.tokenizerRank = [] := by decide +kernel
+
+/-- the depth counter that enforces the limit is kept with `defer` at every counting production: whatever operand of
+    whatever operator the nesting sits in, a level entered is counted until it is left (regenerated; the harness nests
+    through the right and the left operand of every binary operator and through every later argument, element, arm and bound) -/
+theorem gen_depth_counted_until_left : Gen.parserDepthIncs.all (·.2) = true ∧ Gen.parserDepthIncs.length ≥ 3 := by decide +kernel
 
 theorem limits_documented :
     Gen.limitMaxInputSize = 10 * 1024 * 1024 ∧ Gen.limitMaxTokens = 1000000 ∧ Gen.limitMaxRecursionDepth = 100 := by
